@@ -460,6 +460,34 @@ def r58(ctx):
         ctx.bad(rid, cols[0], f"sort_trajstate looks for the partner of a misplaced path in `{short(col, 40)}` = {got_txt} for a path whose weight row is {m} minus-column zero(s), k non-zeros, then zeros; the first column where that path itself has no weight is {m} + k. In a column where its own weight is non-zero a partner of *equal* reach qualifies: the two are swapped back and forth and the re-sort never terminates", construct=f"sort_trajstate: partner column {short(col, 40)}")
 
 
+def r510(ctx):
+    """The P matrix is not evaluated by the acquire primitive. A function that marks an ensemble busy
+    (stores 1 into the busy flags) does not evaluate P after that store: with the maximum number of
+    workers and a zero swap in flight every ensemble can be busy at that moment, the idle block is
+    empty and the evaluation raises - no job can be drawn. P is evaluated where a job is chosen
+    (before the acquire) and after a result was inserted (an ensemble has just become idle)."""
+    rid = "R-5.10"
+    tree = ctx.tree
+    cls = tree.cls(REPEX, "REPEX_state")
+    n = 0
+    for f in [x for x in cls.body if isinstance(x, FUNC)]:
+        acq = [st for st in walk_local(f) if isinstance(st, ast.Assign) and isinstance(st.value, ast.Constant) and st.value.value == 1 and not isinstance(st.value.value, bool)
+               and any(isinstance(t, ast.Subscript) and path_of(t.value) == "self._locks" for t in st.targets)]
+        if not acq:
+            continue
+        n += 1
+        cfg = cfg_of(f)
+        evals = [x for x in walk_local(f) if (isinstance(x, ast.Attribute) and isinstance(x.value, ast.Name) and x.value.id == "self" and x.attr == "prob" and isinstance(x.ctx, ast.Load))
+                 or (isinstance(x, ast.Call) and last_name(x) == "inf_retis")]
+        late = [e for e in evals for a in acq if any(cfg.reaches(cfg.node_of(a), en, labels_excluded=("exc",)) and en.id != cfg.node_of(a).id for en in cfg.nodes_of(e))]
+        if late:
+            ctx.bad(rid, late[0], f"REPEX_state.{f.name} evaluates the P matrix after it has marked an ensemble busy: with workers = ensembles - 1 and a zero swap in flight the last acquire leaves no idle ensemble, the idle block is empty and the evaluation raises (argmax of an empty sequence) - the job cannot be drawn", construct=f"{f.name}: P evaluated after the acquire")
+        else:
+            ctx.ok(rid, acq[0], f"REPEX_state.{f.name}: the acquire does not evaluate the P matrix")
+    if n == 0:
+        raise AnalysisError("R-5.10: no acquire store found in REPEX_state")
+
+
 def run(ctx):
     ctx.rule("R-5.2", "the restart file written after a step is written after the re-sorting (commit is final)", floor=1)
     ctx.rule("R-5.4", "in-flight jobs are persisted in the ensemble-index unit that the restart reads back (shared with C08 R-8.7)", floor=4)
@@ -478,12 +506,15 @@ def run(ctx):
     ctx.attempt(r52b, ctx)
     ctx.rule("R-5.8", "progress of the re-sort: the partner column is the first one where the misplaced path itself has zero weight (symbolic evaluation over the staircase weight row)", floor=1)
     ctx.attempt(r58, ctx)
+    ctx.rule("R-5.10", "the acquire primitive does not evaluate the P matrix (the idle block may be empty right after the last acquire)", floor=1)
+    ctx.attempt(r510, ctx)
     ctx.rule("R-5.9", "the Monte-Carlo P matrix of large blocks is normalised by the number of accumulated samples (shared with C02 R-2.9): the probabilities sum to one, a job can be drawn", floor=1)
     from . import c02 as _c02
     ctx.attempt(_c02.r29, ctx, "R-5.9")
 
 
 VARIANTS = [
+    B("c05-lock-refreshes-probabilities", REPEX, "        assert self._locks[ens] == 0\n        self._locks[ens] = 1\n", "        assert self._locks[ens] == 0\n        self._locks[ens] = 1\n        self._last_prob = None\n        self.prob\n", "R-5.10", control=True, why="seeded C05_i"),
     B("c05-montecarlo-divisor-off-by-one", REPEX, "        return out / (n + 1)\n", "        return out / n\n", "R-5.9", control=True, why="seeded C05_h"),
     B("c05-partner-column-by-count", REPEX, "            zero_idx = list(self.state[ens_idx][1:-1]).index(0) + 1", "            zero_idx = int(np.count_nonzero(self.state[ens_idx][:-1]))", "R-5.8", control=True, why="seeded C05_g"),
     B("c05-partner-column-shift-dropped", REPEX, "            zero_idx = list(self.state[ens_idx][1:-1]).index(0) + 1", "            zero_idx = list(self.state[ens_idx][1:-1]).index(0)", "R-5.8"),
